@@ -41,79 +41,116 @@ def check(ctx):
         ctx.saw_fn(f)
     from .pattern import find, find_all, match
     from .c15 import _inline
+    # The LSH methods are read in the statement shapes of sibling.reshaped (a dictionary is walked over its keys,
+    # `for k, v in d.items()` reads d[k]; lists grow by extend; a default followed by a conditional overwrite is an
+    # if/else; adjacent temporaries are substituted) and in semantic expression form (SELECT / SIZE / EMPTY).
+    from .sibling import reshaped
+    from .semantic import sem_text, emptiness
+    from .terms import final_form
+    from ..model import canon_eq
+    fo_n, gn_n, an_n_ = reshaped(fo.node), reshaped(gn.node), reshaped(an.node)
     # ---- R11.1 writer
-    wloop = [s for s in fo.node.body if isinstance(s, ast.For)]
-    wk = ast.unparse(wloop[0].target) if wloop else None
+    wloop = [s for s in ast.walk(fo_n) if isinstance(s, ast.For) and "table_to_plane" in ast.unparse(s.iter)]
+    wk = ast.unparse(wloop[0].target) if wloop and isinstance(wloop[0].target, ast.Name) else None
     witer = ast.unparse(wloop[0].iter) if wloop else None
-    hn, hb = find("Parallel(n_jobs=_EJ_, backend=self.backend)("
-                  "delayed(_EH_)(contexts[_EL_:_EU_], self.table_to_plane[_K_]) for _I_ in range(_EJ_))", fo.node)
-    w_hash_ok = hn is not None and hb["_K_"] == wk and hb["_EH_"].endswith("get_context_hash")
+    hn = hb = None
+    if wloop:
+        hn, hb = find("delayed(_EH_)(_EROWS_, self.table_to_plane[_K_])", wloop[0])
+    par_ok = False
+    if hn is not None:
+        # the hash tasks are the tasks of a Parallel call of this loop (their partition is R5.2's business)
+        for c in ast.walk(wloop[0]):
+            if isinstance(c, ast.Call) and isinstance(c.func, ast.Call) and ast.unparse(c.func.func) == "Parallel" \
+                    and any(x is hn for x in ast.walk(c)):
+                par_ok = True
+    w_hash_ok = hn is not None and par_ok and hb["_K_"] == wk and hb["_EH_"].endswith("get_context_hash")
     ctx.check(bool(w_hash_ok and wk is not None), "R11.1", "writer hashes the rows with get_context_hash(rows, "
-              "table_to_plane[k])", hn if hn is not None else fo.node, fo, "table loop `for %s in %s`" % (wk, witer),
+              "table_to_plane[k])", fo.node, fo, "table loop `for %s in %s`" % (wk, witer),
               construct="hash call in _fit_operation")
-    an_n, ab = find("Parallel(n_jobs=_EJ_, require='sharedmem')("
-                    "delayed(self._add_neighbors)(_HV_, _K_, _H_, context_start) for _H_ in _EKEYS_)", fo.node)
+    an_n, ab = (None, None)
+    if wloop:
+        an_n, ab = find("Parallel(n_jobs=_EJ_, require='sharedmem')("
+                        "delayed(self._add_neighbors)(_HV_, _K_, _H_, context_start) for _H_ in _EKEYS_)", wloop[0])
     ok_file = an_n is not None and ab["_K_"] == wk
     if ok_file:
         keys = " ".join(ast.unparse(_inline(wloop[0], ast.parse(ab["_EKEYS_"], mode="eval").body)).split())
         ok_file = keys.startswith("np.unique(")
     p_hv, p_k, p_h, p_cs = (an.params[1:] + [None] * 4)[:4]
-    store = [s for s in ast.walk(an.node) if isinstance(s, ast.AugAssign)]
-    ok_store = bool(store) and ast.unparse(store[0].target) == "self.table_to_hash_to_index[%s][%s]" % (p_k, p_h) \
-        and isinstance(store[0].op, ast.Add)
+    # the bucket store, spelled over the parameters (final-state terms of the body: locals substituted, if/else as
+    # conditional terms)
+    bucket = "self.table_to_hash_to_index[%s][%s]" % (p_k, p_h)
+    grown = []
+    for st in final_form(an_n_.body):
+        for x in ast.walk(st):
+            if isinstance(x, ast.Call) and isinstance(x.func, ast.Attribute) and x.func.attr == "extend" and \
+                    ast.unparse(x.func.value) == bucket and len(x.args) == 1:
+                grown.append(x.args[0])
+            if isinstance(x, ast.AugAssign) and isinstance(x.op, ast.Add) and ast.unparse(x.target) == bucket:
+                grown.append(x.value)
+    ok_store = len(grown) == 1
     sel_ok = ok_store
     if ok_store:
-        val = " ".join(ast.unparse(_inline(an.node, store[0].value, stop=())).split())
-        sel_ok = ("np.where(%s == %s)[0]" % (p_hv, p_h)) in val or all(
-            ("np.where(%s == %s)[0]" % (p_hv, p_h)) in ast.unparse(s.value) for s in ast.walk(an.node)
-            if isinstance(s, ast.Assign) and isinstance(s.targets[0], ast.Name) and "np.where" in ast.unparse(s.value))
+        val = sem_text(grown[0])
+        want = "SELECT(%s)" % canon_eq(p_hv, p_h)
+        sels = [ast.unparse(x) for x in ast.walk(ast.parse(val, mode="eval")) if isinstance(x, ast.Call) and
+                isinstance(x.func, ast.Name) and x.func.id in ("SELECT", "SELECT_T")]
+        sel_ok = bool(sels) and all(" ".join(x.split()) == want for x in sels)
     ctx.check(bool(ok_file and ok_store and sel_ok), "R11.1", "writer files row positions whose hash equals h under "
-              "table_to_hash_to_index[k][h]", store[0] if store else an.node, an, construct="bucket store")
+              "table_to_hash_to_index[k][h]", an.node, an, construct="bucket store")
     # ---- R11.1 reader
-    rloop = [s for s in gn.node.body if isinstance(s, ast.For)]
+    rloop = [s for s in gn_n.body if isinstance(s, ast.For)]
     rk = ast.unparse(rloop[0].target) if rloop else None
     riter = ast.unparse(rloop[0].iter) if rloop else None
     ok_r = False
     acc_name = None
     if rloop:
+        grows = [x for x in ast.walk(rloop[0]) if isinstance(x, ast.Call) and isinstance(x.func, ast.Attribute) and
+                 x.func.attr == "extend" and isinstance(x.func.value, ast.Name) and len(x.args) == 1]
         augs = [x for x in ast.walk(rloop[0]) if isinstance(x, ast.AugAssign) and isinstance(x.target, ast.Name)]
-        if len(augs) == 1:
-            acc_name = augs[0].target.id
-            val = " ".join(ast.unparse(_inline(rloop[0], augs[0].value)).split())
+        if len(grows) + len(augs) == 1:
+            acc_name = grows[0].func.value.id if grows else augs[0].target.id
+            v = grows[0].args[0] if grows else augs[0].value
+            val = " ".join(ast.unparse(_inline(rloop[0], v)).split())
             ok_r = val == ("self.table_to_hash_to_index[%s][self.get_context_hash(row_2d, self.table_to_plane[%s])[0]]"
                            % (rk, rk))
     ctx.check(ok_r, "R11.1", "reader hashes the query with the same function and plane and reads the same bucket "
-              "table", rloop[0] if rloop else gn.node, gn, construct="reader loop of _get_neighbors")
-    ctx.check(witer == riter and witer == "self.table_to_plane.keys()", "R11.1",
-              "writer and reader range over the same set of tables", rloop[0] if rloop else gn.node, gn,
+              "table", gn.node, gn, construct="reader loop of _get_neighbors")
+    ctx.check(witer == riter and witer == "self.table_to_plane", "R11.1",
+              "writer and reader range over the same set of tables", gn.node, gn,
               "writer iterates %s, reader iterates %s" % (witer, riter), construct="table key sets")
     # ---- R11.4
-    acc = [s for s in gn.node.body if isinstance(s, ast.Assign) and ast.unparse(s.targets[0]) == acc_name]
-    rets = [s for s in gn.node.body if isinstance(s, ast.Return)]
+    acc = [s for s in gn_n.body if isinstance(s, ast.Assign) and ast.unparse(s.targets[0]) == acc_name]
+    rets = [s for s in gn_n.body if isinstance(s, ast.Return)]
     ok_u = bool(acc) and ast.unparse(acc[0].value) in ("list()", "[]") and bool(rets) and \
         ast.unparse(rets[-1].value) == acc_name
     ctx.check(ok_u, "R11.4", "the candidates of all tables are accumulated in one list", gn.node, gn,
               construct="def _LSHNearest._get_neighbors (union)")
     pc = prog.method("_ApproximateNeighbors", "_predict_contexts")
     ctx.saw_fn(pc)
-    g1, b1 = find("_X_ = self._get_neighbors(_R_)", pc.node)
-    g2, _ = find("_X_ = list(set(_X_))", pc.node, {"_X_": b1["_X_"]}) if b1 else (None, None)
-    g2b, b2b = find("_X_ = list(set(self._get_neighbors(_R_)))", pc.node)
-    bb = b1 or b2b or {}
-    X, Rw = bb.get("_X_"), bb.get("_R_")
-    tr, btr = find("self._get_nhood_predictions(_LP_, _X_, _R_, is_predict)", pc.node, {"_X_": X, "_R_": Rw}) \
-        if X else (None, None)
-    ok_d = (g2 is not None or g2b is not None) and tr is not None and (g2 or g2b).lineno < tr.lineno
-    gi = None
-    for cand in ast.walk(pc.node):
-        if isinstance(cand, ast.If) and X and ast.unparse(cand.test) in ("len(%s) > 0" % X, "len(%s)" % X, X,
-                                                                       "len(%s) != 0" % X):
-            gi = cand
-    ok_e = gi is not None and bool(gi.orelse) and btr is not None and \
-        find("self._get_nhood_predictions(_LP_, _X_, _R_, is_predict)", gi.body[0], btr)[0] is not None and \
-        find("self._get_no_nhood_predictions(_LP_, is_predict)", gi.orelse[0], {"_LP_": btr["_LP_"]})[0] is not None
+    from .c15 import RowForm, _selection_arg
+    rf = RowForm(pc)
+    sel = _selection_arg(prog, "_ApproximateNeighbors", rf.loop) if rf.loop is not None else None
+    sel_t = rf.text(sel) if sel is not None else None
+    ok_d = sel_t is not None and sel_t in ("list(set(self._get_neighbors(ROW[np.newaxis, :])))",
+                                           "list(set(self._get_neighbors(ROW[None, :])))",
+                                           "list(set(self._get_neighbors(ROW.reshape(1, -1))))")
+    ok_e = False
+    if sel is not None:
+        call = parent(sel)
+        while call is not None and not isinstance(call, ast.Call):
+            call = parent(call)
+        gi = parent(call) if call is not None else None
+        while gi is not None and not isinstance(gi, ast.If):
+            gi = parent(gi)
+        if gi is not None:
+            em = emptiness(rf.expr(gi.test, at=gi))
+            in_body = any(call is x for st in gi.body for x in ast.walk(st))
+            other = gi.orelse if in_body else gi.body
+            no_nh = any(isinstance(x, ast.Call) and isinstance(x.func, ast.Attribute) and
+                        x.func.attr == "_get_no_nhood_predictions" for st in other for x in ast.walk(st))
+            ok_e = no_nh and em is not None and " ".join(em[0].split()) == sel_t and em[1] == (not in_body)
     ctx.check(bool(ok_d), "R11.4", "duplicates are dropped before the neighbourhood policy is trained", pc.node, pc,
-              construct="de-duplication in _predict_contexts")
+              "neighbours handed to _get_nhood_predictions: %s" % sel_t, construct="de-duplication in _predict_contexts")
     ctx.check(bool(ok_e), "R11.4", "an empty candidate set takes the empty-neighbourhood path", pc.node, pc,
               construct="empty candidate set")
     # ---- R11.5
@@ -180,9 +217,35 @@ def check(ctx):
     fsrc = " ".join(ast.unparse(fit.node).split())
     isrc = " ".join(ast.unparse(init_fn.node).split())
     arg = init_fn.params[1]
-    sh_n, _ = find("self.table_to_plane = {_I_: self.rng.standard_normal(size=(%s, self.n_dimensions)) "
-                   "for _I_ in self.table_to_plane.keys()}" % arg, init_fn.node)
-    ok_shape = "self._initialize(contexts.shape[1])" in fsrc and sh_n is not None
+    # one draw site; its size is (columns, n_dimensions); it runs once per table (inside a loop / comprehension over
+    # the table dictionary) and its result goes to table_to_plane[<that table>]
+    from .semantic import Env
+    ienv = Env(init_fn.node.body)
+    draws = [x for x in ast.walk(init_fn.node) if isinstance(x, ast.Call) and isinstance(x.func, ast.Attribute)
+             and x.func.attr == "standard_normal"]
+    sh_ok = False
+    if len(draws) == 1:
+        d = draws[0]
+        st = d
+        while st is not None and id(st) not in ienv.env_at:
+            st = parent(st)
+        size = next((k.value for k in d.keywords if k.arg == "size"), d.args[0] if d.args else None)
+        size_t = " ".join(ast.unparse(ienv.at(st, size)).split()) if size is not None and st is not None else None
+        over = None
+        p_ = parent(d)
+        while p_ is not None and p_ is not init_fn.node:
+            if isinstance(p_, ast.DictComp):
+                over = p_.generators[0].iter
+                break
+            if isinstance(p_, ast.For):
+                over = p_.iter
+                break
+            p_ = parent(p_)
+        over_t = ast.unparse(over) if over is not None else ""
+        sh_ok = size_t == "(%s, self.n_dimensions)" % arg and over_t in (
+            "self.table_to_plane", "self.table_to_plane.keys()", "self.table_to_plane.items()",
+            "range(self.n_tables)")
+    ok_shape = "self._initialize(contexts.shape[1])" in fsrc and sh_ok
     ctx.check(ok_shape, "R11.2", "one plane matrix of shape (context columns, n_dimensions) per table", init_fn.node,
               init_fn, construct="def _LSHNearest._initialize")
     check_lsh_offset(ctx)
